@@ -176,6 +176,10 @@ def skeleton(seq):
             k = st[0]
             if k == "guard":
                 continue
+            if k == "sub":
+                # a nested grammar applied to an already cut region consumes nothing of the enclosing input
+                # (REGION-USE checks that it really runs on the region): not part of the consumption skeleton
+                continue
             if k == "switch":
                 arms = sorted(set(json.dumps(rec(s), sort_keys=True) for _, s in st[3]))
                 # arms with identical consumption are merged: which constant selects which arm is not a locality matter
